@@ -114,10 +114,42 @@ Compile scheme (this is the trusted part: what is assumed about Python)
   * spec call handlers may add ghost / state updates (`("let", var, term)` in the prelude of an expression), a
     spec module may declare record types (`prelude`, printed verbatim in the generated file), a generated module
     may import another generated module whose functions it calls (regenerated first by --tie).
-  Rejected: with, comprehensions, generator expressions other than any()/all(), lambda other than a sort key,
+  Fourth round (benchmark functions, store documents, DoE helpers):
+  * `num: True` functions compute with floats over a carrier `α` with the operations of `Artap.Num` (Model/Num.lean), so
+    one generated definition serves `Num Float` (executable) and `Num ℝ` (the theorems): `+ - * /`, unary `-`, `**` /
+    `pow` / `math.pow` are `Num.add/sub/mul/div/neg/pow`; numpy / math `cos sin exp sqrt abs fabs`, `pi`, `e` are resolved
+    through the module's import statements (`import numpy as np`, `from numpy import exp`) to the class members
+    (`e` = `Num.exp (Num.ofNat 1)`).  A float literal is `Num.ofRat (m / 10^k)` for the decimal numeral m*10^-k that
+    Python prints for it (`0.2` -> `2 / 10`, not reduced); a literal with a non-negative integral value, `float(n)` and
+    `len(..)` are natural numbers (type NatF: a float known to be a natural number) and `+` / `*` among them and integers
+    is natural-number arithmetic (`2. * m`, `j + 1.`: exact below 2^53); an integer that meets a float is `Num.ofNat n`
+    (`numOfInt z` for a signed integer).  An accumulator initialised with an integer (`s = 0`, `f = 10 * n`) and later
+    assigned a float is a float from the start (`Num.ofNat` of the initial value).  ZeroDivisionError is `none` only where
+    the divisor is an integer expression (`x / n` with `n = float(len(x))`); division by a float is `Num.div` (Python
+    floats raise on 0.0, numpy floats give inf / nan; `math.sqrt` of a negative number raises: none of this is
+    represented, the theorems of Props/ carry the hypotheses).  `a < b` / `a > b` on floats is the `lt` of the order
+    class named by the spec (`num_lt`); other float comparisons are rejected.  `sum(xs)` is the left fold from
+    `Num.ofNat 0` (`np.sum`, whose pairwise order differs, is rejected); `[e for y in xs]` is `List.map` (one `for`, no
+    conditions, e must not raise); `xs[a:]` is `List.drop` (`pyDropFrom` for a signed start); a display of floats
+    converts its integer-valued members; `x /= e`.  The conventions are printed in the header of the generated file.
+  * a loop variable that re-uses the name of a variable of an enclosing loop is assigned by every pass; the inner loop
+    function returns its last value together with the other carried variables.
+  * `knot`: a function that calls itself is compiled in open-recursion form - the spec routes the self-call through a
+    function parameter - and the generated `<knot>` closes the recursion by structural recursion on `depth`, the number
+    of nested calls the interpreter still allows; `0` is the RecursionError.  That the budget suffices is a hypothesis
+    of the Tie theorem, never an assumption of the translator.
+  * `iterables`: what `for item in value` yields for a value of a spec type (a template; `?` = partial, none = TypeError);
+    `strdict`: dicts with string keys - a display `{'k': e, ...}` with distinct constant keys is the association list in
+    source order, every value converted to the spec's document type through `coerce`, `dict()` = `{}`, `d.items()` the
+    pairs in insertion order; `list(xs)` is the value, `list()` = `[]`; a partial accessor (`?` template) also for
+    attributes; `x == v` on an optional value of an opaque carrier type; `int(e)` on an integer (spec `int_is_int`).
+  * `try_dropped`: handlers for exception classes that the spec declares impossible in the modelled world are dropped
+    (`try: S except E: H` is S; every other exception propagates as without the try); listed in the generated header;
+    an entry that matches no handler is an error.
+  Rejected: with, comprehensions (except `[e for y in xs]` in a `num` function), generator expressions other than any()/all(), lambda other than a sort key,
   nested def, `while` without fuel, `try` other than the oracle form, return inside a nested loop, for/else,
   while/else, chained comparison, chained assignment, assignment to a parameter, slices and negative indices
-  outside the binding table, keyword arguments, `//`, `**`, `int()`, `round()`, string operations, unknown calls
+  outside the binding table, keyword arguments, `//`, `**` and `int()` outside the cases above, `round()`, string operations, unknown calls
   and attributes, decorators other than staticmethod/classmethod, parameter defaults (unless allow_defaults), a
   variable whose type changes, aliasing of lists that are mutated, mutation of a list while a loop iterates over
   it, control falling off the end of a function without `none_ret` in the spec.
@@ -469,6 +501,8 @@ class Fn:
         self.objects = spec.get("objects", {})    # spec record types whose values are mutable objects: type -> why members are distinct
         self.objvars = set()                      # loop variables of object loops (records that may be rebound field by field)
         self.objloops = 0                         # > 0 while the body of an object loop is compiled
+        self.num = bool(spec.get("num"))          # float arithmetic over the `Num α` carrier (fourth round, see NUM_DOC)
+        self.imports = {}                         # local name -> imported module / object (set by `generate`)
         self.inplace = any(                       # does the function mutate a list object in place anywhere?
             (isinstance(n, (ast.Assign, ast.AugAssign))
              and any(isinstance(t, ast.Subscript) and not (isinstance(t.slice, ast.Constant) and isinstance(t.slice.value, str))
@@ -482,6 +516,8 @@ class Fn:
                 if tmpl.startswith("@"):
                     self.table_keys[acc] = tmpl[1:]
         TYPE_ALIAS.clear()
+        if self.num:
+            TYPE_ALIAS.update({"Num": "α", "NatF": "Nat"})
         TYPE_ALIAS.update(spec.get("lean_types", {}))
         ws = sorted((n for n in ast.walk(fndef) if isinstance(n, ast.While)), key=lambda n: (n.lineno, n.col_offset))
         self.while_index = {id(n): k for k, n in enumerate(ws)}
@@ -506,6 +542,13 @@ class Fn:
                 elif len(conc) > 1:
                     if set(conc) == {"Int", "Nat"}:
                         new[x] = "Int"
+                    elif self.num and "Num" in conc and set(conc) <= {"Num", "Nat", "NatF"}:
+                        new[x] = "Num"            # an accumulator initialised with an integer / integral float
+                    elif self.num and set(conc) == {"Nat", "NatF"}:
+                        new[x] = "NatF"
+                    elif self.num and ("List", "Num") in conc \
+                            and set(conc) <= {("List", "Num"), ("List", "NatF"), ("List", "Nat")}:
+                        new[x] = ("List", "Num")  # a list of floats whose first member was integer-valued
                     else:
                         bad(self.fn, "variable %s takes values of different types %s" % (x, conc))
             if new == self.vartype:
@@ -663,6 +706,18 @@ class Fn:
 
     def wrap(self, pre, body, node, env=None):
         known = env.get(self.FACTS, ()) if env else ()
+        if self.num:
+            # a guard that occurs twice in one evaluation (`a / n ... b / n`) is tested once
+            seen, pre2 = set(), []
+            for p in pre:
+                if p[0] == "guard":
+                    if pe(p[1]) in seen:
+                        continue
+                    seen.add(pe(p[1]))
+                elif p[0] in ("bind", "let"):
+                    seen = set()                  # a binding may shadow a variable of the guard
+                pre2.append(p)
+            pre = pre2
         for p in reversed(pre):
             if p[0] == "guard" and pe(p[1]) in known:
                 continue
@@ -749,7 +804,8 @@ class Fn:
                 return self.assign_tuple(st.targets[0], st.value, st, env, after)
             return self.assign(st.targets[0], st.value, None, st, env, after)
         if isinstance(st, ast.AugAssign):
-            if not isinstance(st.op, (ast.Add, ast.Sub, ast.Mult)):
+            if not isinstance(st.op, (ast.Add, ast.Sub, ast.Mult)) and not (self.num and isinstance(st.op, ast.Div)) \
+                    and not (self.s.get("numpy_ints") and isinstance(st.op, ast.FloorDiv)):
                 bad(st, "augmented assignment operator")
             return self.assign(st.target, st.value, st.op, st, env, after)
         if isinstance(st, ast.If) and ast.unparse(st.test) in self.s.get("static", {}):
@@ -757,7 +813,8 @@ class Fn:
             # (listed in the generated header): only that branch is compiled
             taken = st.body if self.s["static"][ast.unparse(st.test)] else st.orelse
             return self.block(list(taken) + rest, env, k, ctx)
-        if isinstance(st, ast.If) and isinstance(st.test, ast.BoolOp) and self.right_raises(st.test, env):
+        if isinstance(st, ast.If) and isinstance(st.test, ast.BoolOp) and ast.unparse(st.test) not in self.bind \
+                and self.right_raises(st.test, env):
             # `if a and b: S else: T` with a raising operation in b  ==  `if a: (if b: S else: T) else: T`
             # (`if a or b: S else: T`  ==  `if a: S else: (if b: S else: T)`): exact in Python, b is only
             # evaluated where Python evaluates it
@@ -819,6 +876,14 @@ class Fn:
         class (a constructor of the spec's outcome type) selects the continuation: the rest of the body, or the
         handler whose exception classes the spec maps to that constructor.  The rest of the body must not raise
         (the function is compiled with raises=False, so any raising operation in it is rejected)."""
+        dropped = self.s.get("try_dropped")
+        if dropped and not st.orelse and not st.finalbody and st.handlers \
+                and all(h.type is not None and ast.unparse(h.type) in dropped for h in st.handlers):
+            # handlers for exception classes that the spec entry declares impossible in the modelled world (listed in
+            # the generated header): `try: S except E: H` is S - every other exception propagates exactly as without
+            # the try statement
+            self.dropped_seen = getattr(self, "dropped_seen", set()) | {ast.unparse(h.type) for h in st.handlers}
+            return self.block(list(st.body), env, after, ctx)
         t = self.s.get("try")
         if t is None or st.orelse or st.finalbody:
             bad(st, "try statement (only the oracle form of the spec entry is supported, without else/finally)")
@@ -1122,6 +1187,11 @@ class Fn:
         return None
 
     def assign(self, tgt, value, op, st, env, after):
+        if isinstance(tgt, ast.Subscript) and isinstance(tgt.slice, ast.Tuple) and self.s.get("subscript_assign"):
+            # `H[:, i] = e` and the like: only through the handler of the spec entry (numpy semantics are stated there)
+            r = self.s["subscript_assign"](self, tgt, value, op, st, env, after)
+            if r is not None:
+                return r
         dv = self.dict_var(tgt, env)
         if dv is not None:
             # d[k] = v on an insertion-ordered dict (`pyDictSet`); Python evaluates v, then d, then k
@@ -1198,10 +1268,14 @@ class Fn:
         if x in env and env[x] != ty and isinstance(env[x], tuple) and isinstance(ty, tuple) and env[x][0] == ty[0] \
                 and (has_unknown(env[x]) or has_unknown(ty)):
             self.unresolved = True                # e.g. `xs = []` ... `xs = [e]`: the next typing pass knows the type
+        elif self.num and x in env and env[x] in ("Nat", "NatF") and ty in ("Num", "NatF", "Nat"):
+            self.unresolved = True                # an integer-valued accumulator that receives a float: retyped by the next pass
         elif x in env and env[x] != ty and env[x] != "IntLit":
             bad(st, "variable changes type from %s to %s" % (tshow(env[x]), tshow(ty)))
         env2 = dict(self.forget(self.learn(env, pre), [x]))
         env2[x] = ty
+        if self.num and ty == "Num" and not fv(v):
+            v = Tm("({0} : %s)" % tshow("Num"), [v])      # a closed float term: its carrier cannot be inferred from a variable
         return self.wrap(pre, Let(x, v, after(env2)), st, env)
 
     def effect(self, st, env, after):
@@ -1564,6 +1638,14 @@ class Fn:
             for a, b in env.items():
                 if a != self.FACTS and e.get(a) != b and b == "IntLit" and e.get(a) in NUMERIC:
                     self.observed.setdefault(a, []).append(e[a])       # retyped by the next pass
+                elif self.num and a != self.FACTS and e.get(a) != b and b in ("IntLit", "Nat", "NatF") \
+                        and e.get(a) in ("Num", "NatF", "Nat"):
+                    self.observed.setdefault(a, []).append(e[a])       # retyped by the next pass
+                    self.unresolved = True
+                elif a != self.FACTS and e.get(a) != b and isinstance(b, tuple) and has_unknown(b) \
+                        and isinstance(e.get(a), tuple) and e[a][0] == b[0] and not has_unknown(e[a]):
+                    self.observed.setdefault(a, []).append(e[a])       # `xs = []` before the loop: typed by the next pass
+                    self.unresolved = True
                 elif a != self.FACTS and e.get(a) != b:
                     bad(st, "variable %s has type %s at loop entry and %s at the end of the body"
                         % (a, tshow(b), tshow(e.get(a))))
@@ -1639,7 +1721,11 @@ class Fn:
             lines += ["  | %s%s =>" % (fuel, args)] + pp(body, 2)
         else:
             lines += ["  | []%s =>" % args] + pp(nil, 2)
-            lines += ["  | %s :: %s%s =>" % (pat_show(pat), lp.tl, args)] + pp(body, 2)
+            # a carried variable that is also the loop variable (an inner `for i` re-using the name of an enclosing
+            # loop variable): every pass assigns it from the list, the incoming value is dead
+            pvs = set(pat_vars(pat))
+            args_cons = "".join(", " + ("_" if x in pvs else x) for x in lp.carried)
+            lines += ["  | %s :: %s%s =>" % (pat_show(pat), lp.tl, args_cons)] + pp(body, 2)
         self.defs.append("\n".join(lines))
         if objloop:
             return self.wrap(pre, Let(objloop[1], C("([] : %s)" % tshow(env[objloop[1]])), Call(lp, lst)), st)
@@ -1733,7 +1819,25 @@ class Fn:
                     return p1, Tm("(List.zipIdx {0})", [a]), ("Prod", (ta, "Nat")), "enum"
                 if f == "list" and len(n.args) == 1:
                     return lst(n.args[0], True)                 # snapshot = the value itself
+            if isinstance(n, ast.Call) and isinstance(n.func, ast.Attribute) and n.func.attr == "items" and not n.args \
+                    and not n.keywords and self.s.get("strdict"):
+                # d.items(): the (key, value) pairs in insertion order = the association list itself
+                pre, v, ty = self.expr(n.func.value, env)
+                if not (isinstance(ty, tuple) and ty[0] == "Dict") or has_unknown(ty):
+                    bad(n, ".items() of something that is not a dict of the translator")
+                return pre, v, ("Prod", (ty[1][0], ty[1][1])), None
             pre, v, ty = self.expr(n, env)
+            if isinstance(ty, tuple) and ty[0] == "Dict" and not has_unknown(ty) and self.s.get("strdict"):
+                # `for key in d`: the keys in insertion order
+                return pre, Tm("(List.map Prod.fst {0})", [v]), ty[1][0], None
+            if isinstance(ty, str) and ty in self.s.get("iterables", {}):
+                # iteration over a value of a spec type: the spec entry says which list `for item in value` yields
+                # (a template starting with `?` is Option-valued: none = TypeError, not iterable)
+                tmpl, ety = self.s["iterables"][ty]
+                if tmpl.startswith("?"):
+                    t = self.tmp()
+                    return pre + [("bind", t, Tm(tmpl[1:], [v]))], V(t), ety, None
+                return pre, Tm(tmpl, [v]), ety, None
             if not (isinstance(ty, tuple) and ty[0] == "List"):
                 bad(n, "iteration over something that is not a list (type %s)" % tshow(ty))
             if ty[1] == "IntLit":                      # `for s in [-1, 1]`: the members are integers
@@ -1764,12 +1868,36 @@ class Fn:
     def coerce(self, v, ty, want, node):
         if want is None or ty == want:
             return v
+        if self.num and want == "Num":
+            # int -> float: the exact value (`Num.ofNat`); a negative literal is the negation of its absolute value
+            if ty in ("Nat", "NatF"):
+                return Tm("(Num.ofNat {0})", [v])
+            if ty == "IntLit":
+                if isinstance(v, Lit) and v.value < 0:
+                    m = Lit(-v.value)
+                    m.ty = "Nat"
+                    return Tm("(Num.neg (Num.ofNat {0}))", [m])
+                self.setlit(v, "Nat", node)
+                return Tm("(Num.ofNat {0})", [v])
+            if ty == "Int":
+                self.need("numOfInt")             # a signed integer: `Num.ofNat` of its absolute value, negated when negative
+                return Tm("(numOfInt {0})", [v])
+        if self.num and want == "NatF" and ty in ("Nat", "IntLit"):
+            if ty == "IntLit":
+                self.setlit(v, "Nat", node)
+            return v
         if ty == "IntLit" and want in NUMERIC:
             self.setlit(v, want, node)
             return v
         ck = (tshow(ty), tshow(want)) if ty is not None and want is not None else None
         if ck in self.s.get("coerce", {}):
             return Tm(self.s["coerce"][ck], [v])
+        if has_unknown(ty) and not has_unknown(want) and isinstance(ty, tuple) and not isinstance(want, tuple) \
+                and any(k[1] == tshow(want) for k in self.s.get("coerce", {})):
+            # a list whose element type is not known yet, used where the spec converts (e.g. list -> document):
+            # converted in the next typing pass, when the element type is known
+            self.unresolved = True
+            return v
         if has_unknown(ty) and not has_unknown(want):
             # a list that starts empty used at a known type: the next typing pass declares it with that type
             self.unresolved = True
@@ -1786,6 +1914,8 @@ class Fn:
 
     def setlit(self, v, ty, node):
         """push a numeric type into an integer-literal expression"""
+        if ty == "NatF":
+            ty = "Nat"
         if isinstance(v, Lit):
             if ty == "Nat" and v.value < 0:
                 bad(node, "negative literal as a natural number")
@@ -1807,6 +1937,10 @@ class Fn:
             bad(node, "cannot type literal expression")
 
     def unify(self, a, ta, b, tb, node):
+        if self.num and ta != tb and "Num" in (ta, tb):
+            return self.coerce(a, ta, "Num", node), self.coerce(b, tb, "Num", node), "Num"
+        if self.num and ta != tb and "NatF" in (ta, tb) and ta in self.INTY and tb in self.INTY:
+            return self.coerce(a, ta, "NatF", node), self.coerce(b, tb, "NatF", node), "NatF"
         if ta == tb:
             if ta == "IntLit":
                 return a, b, "IntLit"
@@ -1830,6 +1964,70 @@ class Fn:
         if f >= 0:
             return C("((%d : Rat) / %d)" % (f.numerator, f.denominator))
         return C("((-%d : Rat) / %d)" % (-f.numerator, f.denominator))
+
+    INTY = ("Nat", "IntLit", "NatF")
+
+    def numconst(self, x, node):
+        """float literal in a `num` function: a non-negative integral value k is the natural number k (type NatF: a
+        float known to be a natural number, `Num.ofNat k` where a float is needed); any other literal is
+        `Num.ofRat (m / 10^e)` with m and e read off the decimal numeral that Python prints for it (0.2 -> 2/10)"""
+        import decimal
+        if x < 0:
+            bad(node, "negative float constant")          # the parser gives -(literal); kept for synthesised nodes
+        d = decimal.Decimal(repr(x))
+        sign, digits, exp = d.as_tuple()
+        m = int("".join(str(k) for k in digits))
+        if exp >= 0 or x == int(x):
+            k = int(x)
+            if k >= 2 ** 53:
+                bad(node, "integral float constant of 2^53 or more")
+            lit = Lit(k)
+            lit.ty = "Nat"
+            return [], lit, "NatF"
+        return [], C("(Num.ofRat ((%d : Rat) / %d))" % (m, 10 ** (-exp))), "Num"
+
+    def qualname(self, n):
+        """`np.cos` / `exp` -> "numpy.cos" / "numpy.exp" through the import statements of the module, or None"""
+        if isinstance(n, ast.Name):
+            return self.imports.get(n.id) if "." in self.imports.get(n.id, "") else None
+        if isinstance(n, ast.Attribute) and isinstance(n.value, ast.Name) and n.value.id in self.imports \
+                and "." not in self.imports[n.value.id]:
+            return self.imports[n.value.id] + "." + n.attr
+        return None
+
+    NUM_FUNS = {"cos": "Num.cos", "sin": "Num.sin", "exp": "Num.exp", "sqrt": "Num.sqrt",
+                "abs": "Num.abs", "fabs": "Num.abs", "absolute": "Num.abs"}
+    NUM_CONSTS = {"pi": "Num.pi", "e": "(Num.exp (Num.ofNat (1 : Nat)))"}
+
+    def num_arith(self, n, pre, a, ta, b, tb):
+        """arithmetic of a `num` function with at least one float operand, `/` or `**` (see NUM_DOC)"""
+        opn = type(n.op)
+        for t in (ta, tb):
+            if t != "Num" and t != "Int" and t not in self.INTY:
+                bad(n, "float arithmetic on a value of type %s" % tshow(t))
+        ints = ta in self.INTY and tb in self.INTY
+        if opn is ast.Pow:
+            if ints and "NatF" not in (ta, tb):
+                bad(n, "power of an integer")
+            return pre, Tm("(Num.pow {0} {1})", [self.coerce(a, ta, "Num", n), self.coerce(b, tb, "Num", n)]), "Num"
+        if ints and opn in (ast.Add, ast.Mult):
+            # integral float (+ | *) integer: exact natural-number arithmetic (both < 2^53), still a float
+            if ta == "IntLit":
+                self.setlit(a, "Nat", n)
+            if tb == "IntLit":
+                self.setlit(b, "Nat", n)
+            return pre, Op("+" if opn is ast.Add else "*", a, b), "NatF"
+        if opn is ast.Div and (tb in self.INTY or tb == "Int"):
+            # the divisor is (the float of) an integer: ZeroDivisionError is decidable
+            nz = isinstance(b, Lit) and b.value != 0
+            if tb == "IntLit":
+                self.setlit(b, "Nat", n)
+            if not nz:
+                pre = pre + [("guard", Op("≠", b, C("0")))]
+        name = {ast.Add: "Num.add", ast.Sub: "Num.sub", ast.Mult: "Num.mul", ast.Div: "Num.div"}.get(opn)
+        if name is None:
+            bad(n, "binary operator on floats")
+        return pre, Tm("(%s {0} {1})" % name, [self.coerce(a, ta, "Num", n), self.coerce(b, tb, "Num", n)]), "Num"
 
     def accessor(self, base, tb, acc, node):
         """type-directed attribute / string-key access on spec types"""
@@ -1856,6 +2054,10 @@ class Fn:
         if key in self.fields:
             rv, fld, ty = self.fields[key]
             return [], Tm("{0}.%s" % fld, [V(rv)]), ty
+        if self.num and isinstance(n, (ast.Name, ast.Attribute)) and not (isinstance(n, ast.Name) and n.id in env):
+            q = self.qualname(n)
+            if q is not None and q.split(".")[0] in ("numpy", "math") and q.split(".", 1)[1] in self.NUM_CONSTS:
+                return [], C(self.NUM_CONSTS[q.split(".", 1)[1]]), "Num"
         if isinstance(n, ast.Constant):
             v = n.value
             if v is None:
@@ -1880,6 +2082,8 @@ class Fn:
             if isinstance(v, float):
                 if v != v or v in (float("inf"), float("-inf")):
                     bad(n, "non-finite float constant")
+                if self.num:
+                    return self.numconst(v, n)
                 return [], self.ratconst(v), "Rat"
             bad(n, "constant")
         if isinstance(n, ast.Name):
@@ -1892,6 +2096,16 @@ class Fn:
             if isinstance(n.op, ast.Not):
                 pre, c = self.cond(n, env)
                 return pre, Tm("(decide {0})", [c]), "Bool"
+            if isinstance(n.op, ast.USub) and self.num and not (isinstance(n.operand, ast.Constant)
+                                                                and isinstance(n.operand.value, int)):
+                pre, v, ty = self.expr(n.operand, env)
+                if ty == "Num" or ty == "NatF":
+                    return pre, Tm("(Num.neg {0})", [self.coerce(v, ty, "Num", n)]), "Num"
+                if ty == "Nat":
+                    v, ty = self.coerce(v, ty, "Int", n), "Int"
+                if ty not in ("Int", "IntLit"):
+                    bad(n, "negation of a non-number")
+                return pre, Tm("(- {0})", [v]), ty
             if isinstance(n.op, ast.USub):
                 if isinstance(n.operand, ast.Constant) and isinstance(n.operand.value, (int, float)) \
                         and not isinstance(n.operand.value, bool):
@@ -1932,14 +2146,39 @@ class Fn:
                 return [], C("([] : %s)" % tshow(want)), want
             pres, items, ty = [], [], None
             wel = want[1] if isinstance(want, tuple) and want[0] == "List" else None
-            for e in n.elts:
-                p, v, t = self.expr(e, env, wel)
+            if self.num:
+                # a display of floats: integer-valued members are converted like any other operand
+                parts = [self.expr(e, env, wel) for e in n.elts]
+                if wel == "Num" or (any(t == "Num" for _, _, t in parts) and all(t == "Num" or t in self.INTY for _, _, t in parts)):
+                    parts = [(p, self.coerce(v, t, "Num", n), "Num") for p, v, t in parts]
+            else:
+                parts = None
+            for k, e in enumerate(n.elts):
+                p, v, t = parts[k] if parts is not None else self.expr(e, env, wel)
                 if ty is not None and t != ty:
                     bad(n, "list display with elements of different types")
                 ty = t
                 pres += p
                 items.append(v)
             return pres, Tm("[" + ", ".join("{%d}" % i for i in range(len(items))) + "]", items), ("List", ty)
+        if isinstance(n, ast.Dict) and n.keys and self.s.get("strdict"):
+            # {'k1': e1, ...} with distinct string constants as keys: the association list in source order; every
+            # value is converted to the spec's document type (`strdict`) through the spec's `coerce` table
+            vt = self.s["strdict"]
+            ks = []
+            for k in n.keys:
+                if not (isinstance(k, ast.Constant) and isinstance(k.value, str)) or k.value in ks \
+                        or '"' in k.value or "\\" in k.value or not k.value.isprintable():
+                    bad(n, "dict display whose keys are not distinct plain string constants")
+                ks.append(k.value)
+            pres, items = [], []
+            for e in n.values:
+                p, v, t = self.expr(e, env, vt)
+                pres += p
+                items.append(self.coerce(v, t, vt, e))
+            self.need("pyDict")
+            text = "[" + ", ".join('("%s", {%d})' % (k, i) for i, k in enumerate(ks)) + "]"
+            return pres, Tm(text, items), ("Dict", ("Str", vt))
         if isinstance(n, ast.Dict):
             if n.keys:
                 bad(n, "dict display with items (only the empty dict `{}` is supported)")
@@ -1949,22 +2188,56 @@ class Fn:
             return [], C("[]"), ("Dict", ("?", "?"))              # item types found by the next typing pass
         if isinstance(n, ast.Attribute):
             pre, b, tb = self.expr(n.value, env)
+            table = self.types.get(tb) if isinstance(tb, str) else None
+            if table is not None and "." + n.attr in table and table["." + n.attr][0].startswith("?"):
+                t = self.tmp()                    # partial accessor: none = AttributeError
+                return pre + [("bind", t, Tm(table["." + n.attr][0][1:], [b]))], V(t), table["." + n.attr][1]
             v, ty = self.accessor(b, tb, "." + n.attr, n)
             return pre, v, ty
         if isinstance(n, ast.Subscript):
             return self.subscript(n, env, want)
         if isinstance(n, ast.Call):
             return self.call(n, env, want)
+        if self.num and isinstance(n, ast.ListComp):
+            # [e for y in xs]: `List.map` over the list value; no conditions, one `for`, e must not raise
+            if len(n.generators) != 1 or n.generators[0].ifs or n.generators[0].is_async:
+                bad(n, "list comprehension with conditions or several `for` clauses")
+            gen = n.generators[0]
+            pre, xs, ety, pat, patenv = self.iterable(gen.iter, gen.target, env, True)
+            if has_unknown(ety):
+                self.unresolved = True
+                return pre, C("[]"), ("List", "?")
+            env2 = dict(env)
+            for a, b in patenv.items():
+                if a in env or a in self.lean_param_names:
+                    bad(n, "comprehension variable shadows a variable in scope")
+                env2[a] = b
+            p2, e, te = self.expr(n.elt, env2)
+            if p2:
+                bad(n, "raising operation inside a list comprehension")
+            if te in self.INTY:
+                e, te = self.coerce(e, te, "Num", n), "Num"
+            return pre, Tm("(List.map {0} {1})", [Lam(pat, e), xs]), ("List", te)
         bad(n, "expression")
 
     def binop(self, n, env, want):
         ops = {ast.Add: "+", ast.Sub: "-", ast.Mult: "*", ast.Div: "/", ast.Mod: "%"}
-        if type(n.op) not in ops:
+        if self.s.get("numpy_ints") and isinstance(n.op, (ast.FloorDiv, ast.Mult, ast.Add)):
+            r = self.list_or_npint_op(n, env)
+            if r is not None:
+                return r
+        if type(n.op) not in ops and not (self.num and isinstance(n.op, ast.Pow)):
             bad(n, "binary operator")
-        op = ops[type(n.op)]
         w = want if want in NUMERIC else None
         p1, a, ta = self.expr(n.left, env, w)
         p2, b, tb = self.expr(n.right, env, w)
+        if self.num and (isinstance(n.op, (ast.Pow, ast.Div)) or "Num" in (ta, tb) or "NatF" in (ta, tb)) \
+                and not (isinstance(n.op, ast.Pow) and "Num" not in (ta, tb) and "NatF" not in (ta, tb)
+                         and all(t in ("Int", "Nat", "IntLit") for t in (ta, tb))):
+            return self.num_arith(n, p1 + p2, a, ta, b, tb)
+        if type(n.op) not in ops:
+            bad(n, "power of an integer")
+        op = ops[type(n.op)]
         for t in (ta, tb):
             if t not in NUMERIC + ("IntLit",):
                 bad(n, "arithmetic on a value of type %s" % tshow(t))
@@ -1995,6 +2268,55 @@ class Fn:
             # Python integers are signed: never use truncated subtraction
             return pre, Op("-", self.coerce(a, "Nat", "Int", n), self.coerce(b, "Nat", "Int", n)), "Int"
         return pre, Op(op, a, b), ty
+
+    def list_or_npint_op(self, n, env):
+        """spec option `numpy_ints` (fullfact): `a // b` where a is a numpy integer (type NpInt: the result of a bound
+        numpy call) is numpy's floor division - division by zero gives 0 and a RuntimeWarning, not an exception - and
+        stays a numpy integer; on Python naturals it is the floor division with ZeroDivisionError = none.
+        `[e] * k` is `List.replicate k e`, `xs * k` the list repeated k times (k a natural number or a numpy integer,
+        which implements __index__), `xs + ys` / `xs += ys` the concatenation.  -> (pre, term, type) | None"""
+        saved = self.ntmp
+        p1, a, ta = self.expr(n.left, env)
+        p2, b, tb = self.expr(n.right, env)
+        intish = ("Nat", "NpInt", "IntLit")
+        if isinstance(n.op, ast.FloorDiv):
+            if ta == "NpInt" and tb in intish:
+                if tb == "IntLit":
+                    self.setlit(b, "Nat", n)
+                return p1 + p2, Op("/", a, b), "NpInt"
+            if ta in ("Nat", "IntLit") and tb in ("Nat", "IntLit"):
+                if ta == "IntLit":
+                    self.setlit(a, "Nat", n)
+                if tb == "IntLit":
+                    self.setlit(b, "Nat", n)
+                pre = p1 + p2
+                if not (isinstance(n.right, ast.Constant) and n.right.value != 0):
+                    pre = pre + [("guard", Op("≠", b, C("0")))]
+                return pre, Op("/", a, b), "Nat"
+            bad(n, "floor division on values of type %s and %s" % (tshow(ta), tshow(tb)))
+        la = isinstance(ta, tuple) and ta[0] == "List"
+        lb = isinstance(tb, tuple) and tb[0] == "List"
+        if isinstance(n.op, ast.Mult) and la and tb in intish:
+            if tb == "IntLit":
+                self.setlit(b, "Nat", n)
+            if isinstance(n.left, ast.List) and len(n.left.elts) == 1:
+                p0, e, te = self.expr(n.left.elts[0], env)
+                if te == "IntLit":
+                    self.setlit(e, "Nat", n)
+                    te = "Nat"
+                return p0 + p2, Tm("(List.replicate {0} {1})", [b, e]), ("List", te)
+            return p1 + p2, Tm("(List.flatten (List.replicate {0} {1}))", [b, a]), ta
+        if isinstance(n.op, ast.Add) and la and lb:
+            if has_unknown(ta) and not has_unknown(tb):
+                self.unresolved = True
+                if isinstance(a, V):
+                    self.observed.setdefault(a.name, []).append(tb)
+                return p1 + p2, Tm("({0} ++ {1})", [a, b]), tb
+            if ta != tb:
+                bad(n, "concatenation of lists of different types")
+            return p1 + p2, Tm("({0} ++ {1})", [a, b]), ta
+        self.ntmp = saved
+        return None
 
     def subscript(self, n, env, want):
         ref = self.table_ref(n, env)
@@ -2039,6 +2361,19 @@ class Fn:
             if tk != "Nat":
                 bad(n, "slice bound of type %s (only natural numbers)" % tshow(tk))
             return pre + p2, Tm("(List.take {0} {1})", [k, b]), tb
+        if self.num and isinstance(sl, ast.Slice) and isinstance(tb, tuple) and tb[0] == "List" and sl.upper is None \
+                and sl.step is None and sl.lower is not None:
+            # xs[a:] (a new list): `List.drop` for a natural number, Python's from-the-end rule for a signed integer
+            p2, k, tk = self.expr(sl.lower, env, "Nat")
+            if tk == "IntLit":
+                self.setlit(k, "Nat", n)
+                tk = "Nat"
+            if tk == "Nat":
+                return pre + p2, Tm("(List.drop {0} {1})", [k, b]), tb
+            if tk == "Int":
+                self.need("pyDropFrom")
+                return pre + p2, Tm("(pyDropFrom {0} {1})", [b, k]), tb
+            bad(n, "slice bound of type %s" % tshow(tk))
         if isinstance(sl, ast.Slice):
             bad(n, "slice (only slices named in the binding table, and xs[:k] on lists, are supported)")
         if isinstance(tb, tuple) and tb[0] == "Prod":
@@ -2055,6 +2390,8 @@ class Fn:
             p2, k, tk = self.expr(sl, env, tb[1][0])
             k = self.coerce(k, tk, tb[1][0], n)
             t = self.tmp()
+            if self.s.get("strdict"):
+                self.need("pyDict")               # a dict that is a parameter: no `{}` has asked for the helpers
             return pre + p2 + [("bind", t, Tm("(pyDictGet {0} {1})", [b, k]))], V(t), tb[1][1]      # KeyError
         if isinstance(tb, tuple) and tb[0] == "List":
             p2, i, ti = self.expr(sl, env, "Nat" if not isinstance(sl, ast.UnaryOp) else "Int")
@@ -2150,6 +2487,27 @@ class Fn:
             return pre, v, ty
         if n.keywords:
             bad(n, "keyword arguments")
+        if key == "int" and len(n.args) == 1 and self.s.get("int_is_int"):
+            # int(e) on a value that the spec types as an integer: the same integer (spec option `int_is_int`: the
+            # matrix entries that the function indexes with are integral)
+            pre, v, ty = self.expr(n.args[0], env)
+            if ty not in ("Int", "Nat", "IntLit"):
+                bad(n, "int() of a value of type %s" % tshow(ty))
+            return pre, v, ty
+        if key == "list" and not n.args:
+            return self.expr(ast.copy_location(ast.List(elts=[], ctx=ast.Load()), n), env, want)      # list() = []
+        if key == "dict" and not n.args and self.s.get("strdict"):
+            return self.expr(ast.copy_location(ast.Dict(keys=[], values=[]), n), env, want)       # dict() = {}
+        if key == "list" and len(n.args) == 1 and self.s.get("strdict"):
+            # list(xs) on a list value: a new list object with the same members = the same value
+            pre, v, ty = self.expr(n.args[0], env)
+            if not (isinstance(ty, tuple) and ty[0] == "List"):
+                bad(n, "list() of something that is not a list")
+            return pre, v, ty
+        if self.num:
+            r = self.num_call(n, key, env)
+            if r is not None:
+                return r
         if key in ("any", "all") and len(n.args) == 1 and isinstance(n.args[0], ast.GeneratorExp):
             # exactly `any(<test> for x in xs)` / `all(...)`: List.any / List.all over the list value; the test
             # must not contain a raising operation (it would be evaluated lazily in Python)
@@ -2218,6 +2576,45 @@ class Fn:
             return pre, Tm("(pySq {0})", [v]), "Rat"
         bad(n, "call")
 
+    def num_call(self, n, key, env):
+        """numpy / math functions of one float, `abs`, `float`, `pow` in a `num` function"""
+        q = self.qualname(n.func)
+        fun = None
+        if q is not None and q.split(".")[0] in ("numpy", "math"):
+            fun = q.split(".", 1)[1]
+        elif key == "abs" and "abs" not in self.imports:
+            fun = "abs"
+        if fun in self.NUM_FUNS and len(n.args) == 1:
+            pre, v, ty = self.expr(n.args[0], env)
+            if fun == "abs" and q is None and ty in ("Int", "IntLit", "Nat"):
+                return None                                  # the builtin on an integer: the integer rules
+            return pre, Tm("(%s {0})" % self.NUM_FUNS[fun], [self.coerce(v, ty, "Num", n)]), "Num"
+        if ((q in ("math.pow", "numpy.power")) or (key == "pow" and "pow" not in self.imports)) and len(n.args) == 2:
+            p1, a, ta = self.expr(n.args[0], env)
+            p2, b, tb = self.expr(n.args[1], env)
+            if key == "pow" and q is None and ta in ("Int", "IntLit", "Nat") and tb in ("Int", "IntLit", "Nat"):
+                bad(n, "power of an integer")
+            return p1 + p2, Tm("(Num.pow {0} {1})", [self.coerce(a, ta, "Num", n), self.coerce(b, tb, "Num", n)]), "Num"
+        if ((key == "sum" and "sum" not in self.imports) or q == "numpy.sum") and len(n.args) == 1:
+            # sum(xs): 0 + x0 + x1 + ... from the left (numpy's pairwise order for long arrays is not represented:
+            # np.sum is accepted only on a list display / comprehension / list value, where it converts first)
+            pre, v, ty = self.expr(n.args[0], env)
+            if ty != ("List", "Num"):
+                bad(n, "sum of something that is not a list of floats")
+            if q == "numpy.sum":
+                bad(n, "np.sum (pairwise summation order of numpy is not that of a left-to-right loop)")
+            return pre, Tm("(List.foldl (fun acc y => Num.add acc y) (Num.ofNat (0 : Nat)) {0})", [v]), "Num"
+        if key == "float" and "float" not in self.imports and len(n.args) == 1:
+            pre, v, ty = self.expr(n.args[0], env)
+            if ty in ("Nat", "IntLit", "NatF"):
+                if ty == "IntLit":
+                    self.setlit(v, "Nat", n)
+                return pre, v, "NatF"
+            if ty == "Num":
+                return pre, v, "Num"
+            bad(n, "float() of a value of type %s" % tshow(ty))
+        return None
+
     def cond(self, n, env):
         """-> (prelude, Prop term) for an expression in boolean position"""
         if ast.unparse(n) in self.bind and self.bind[ast.unparse(n)][1] == "Bool":
@@ -2263,7 +2660,7 @@ class Fn:
                 self.unresolved = True            # typed by the next pass
                 return p1 + p2, C("True")
             if isinstance(o, (ast.Eq, ast.NotEq)) and isinstance(ta, tuple) and ta[0] == "Option" and ta[1] == tb \
-                    and (tb in NUMERIC or tb in ("Bool", "Str")):
+                    and (tb in NUMERIC or tb in ("Bool", "Str") or tb in self.carrier):
                 # `x == v` where x holds None or a value: None equals no value
                 c = Op("=", a, Tm("(some {0})", [b]))
                 return p1 + p2, (c if isinstance(o, ast.Eq) else Not(c))
@@ -2279,6 +2676,15 @@ class Fn:
             if isinstance(o, (ast.Eq, ast.NotEq)) and ta == tb and ta in self.eqs:
                 c = Tm("(" + self.eqs[ta] + " = true)", [a, b], fv=self.mentions(self.eqs[ta]))
                 return p1 + p2, (c if isinstance(o, ast.Eq) else Not(c))
+            if self.num and ("Num" in (ta, tb) or "NatF" in (ta, tb)):
+                # order of floats: the carrier's `<` (spec `num_lt`); nothing else is available on the carrier
+                lt = self.s.get("num_lt")
+                if lt is None or not isinstance(o, (ast.Lt, ast.Gt)):
+                    bad(n, "comparison of floats other than `<` / `>` (or no `num_lt` in the spec entry)")
+                a, b = self.coerce(a, ta, "Num", n), self.coerce(b, tb, "Num", n)
+                if isinstance(o, ast.Gt):
+                    a, b = b, a
+                return p1 + p2, Tm("((%s {0} {1}) = true)" % lt, [a, b])
             a, b, ty = self.unify(a, ta, b, tb, n)
             if ty == "IntLit":
                 self.setlit(a, "Int", n)
@@ -2368,6 +2774,12 @@ HELPERS = {
               "def pySet {α : Type} (xs : List α) (k : Int) (v : α) : Option (List α) :=\n"
               "  if 0 ≤ k then (if k.toNat < xs.length then some (xs.set k.toNat v) else none)\n"
               "  else if -(xs.length : Int) ≤ k then some (xs.set (xs.length + k).toNat v) else none"),
+    "numOfInt": ("/-- a Python integer where a float is needed: converted exactly -/\n"
+                 "def numOfInt {α : Type} [Artap.Num α] (z : Int) : α :=\n"
+                 "  if 0 ≤ z then Artap.Num.ofNat z.toNat else Artap.Num.neg (Artap.Num.ofNat (-z).toNat)"),
+    "pyDropFrom": ("/-- `xs[a:]` for a signed start (negative counts from the end, clipped at the front) -/\n"
+                   "def pyDropFrom {α : Type} (xs : List α) (a : Int) : List α :=\n"
+                   "  if 0 ≤ a then xs.drop a.toNat else xs.drop ((xs.length : Int) + a).toNat"),
     "pyDel": ("/-- `del xs[k]` for a signed index; `none` = IndexError -/\n"
               "def pyDel {α : Type} (xs : List α) (k : Int) : Option (List α) :=\n"
               "  if 0 ≤ k then (if k.toNat < xs.length then some (xs.eraseIdx k.toNat) else none)\n"
@@ -2432,9 +2844,11 @@ def normalise(fn, spec):
     allowed = set()
     if spec.get("fuel"):
         allowed.add(ast.While)                    # `while` needs an explicit fuel from the spec entry
-    if spec.get("try"):
+    if spec.get("try") or spec.get("try_dropped"):
         allowed.add(ast.Try)                      # only the restricted oracle form, checked by the compiler
     ok_nodes = set()
+    if spec.get("num"):
+        allowed.add(ast.ListComp)                 # `[e for y in xs]` = List.map, checked by the compiler
     for n in ast.walk(fn):
         # `any(<expr> for x in xs)` / `all(...)`: exactly this generator-expression form
         if isinstance(n, ast.Call) and isinstance(n.func, ast.Name) and n.func.id in ("any", "all") \
@@ -2593,6 +3007,35 @@ def module_consts(tree):
     return out
 
 
+def module_imports(tree):
+    """local name -> what it is bound to by the module's import statements: `import numpy as np` -> {"np": "numpy"},
+    `from numpy import exp` -> {"exp": "numpy.exp"}"""
+    out = {}
+    for n in tree.body:
+        if isinstance(n, ast.Import):
+            for a in n.names:
+                if a.asname:
+                    out[a.asname] = a.name
+                elif "." not in a.name:
+                    out[a.name] = a.name
+        elif isinstance(n, ast.ImportFrom) and n.module and n.level == 0:
+            for a in n.names:
+                out[a.asname or a.name] = n.module + "." + a.name
+    return out
+
+
+NUM_DOC = [
+    "floats are values of a carrier `α` with the operations of `Artap.Num` (Model/Num.lean): `+ - * /` and unary `-` are",
+    "`Num.add/sub/mul/div/neg`, `a ** b` / `pow` / `math.pow` is `Num.pow a b`, numpy / math `cos sin exp sqrt abs fabs` are the class",
+    "members, `pi` is `Num.pi`, `e` is `Num.exp (Num.ofNat 1)`.  A float literal is `Num.ofRat (m / 10^k)` for the decimal numeral",
+    "m·10^-k that Python prints for it; a literal with a non-negative integral value k, `float(n)` and `len(..)` are natural numbers,",
+    "and `+` / `*` between them and integers is natural-number arithmetic (exact below 2^53); an integer that meets a float is",
+    "`Num.ofNat n` (Python converts it exactly).  ZeroDivisionError is `none` only where the divisor is such an integer; division",
+    "by a float is `Num.div` (Python floats raise on 0, numpy floats give inf / nan: not represented, the theorems carry the",
+    "hypothesis where they need it).  `<` on floats is the `lt` of the spec entry's order class.",
+]
+
+
 def generate(name, repo):
     """-> (text of Gen/<name>.lean, blob hash)"""
     from py2lean_specs import SPECS
@@ -2603,6 +3046,7 @@ def generate(name, repo):
     blob = blob_hash(data)
     tree = ast.parse(data.decode("utf-8"), filename=path)
     consts = module_consts(tree)
+    imports = module_imports(tree)
     helpers = []
     defs = []
     ignored = {}
@@ -2613,7 +3057,13 @@ def generate(name, repo):
             assigned, mutated = normalise(fn, spec)
             c = Fn(spec, fn, consts)
             c.assigned, c.mutated, c.helpers = assigned, mutated, helpers
+            c.imports = imports
             defs.append(c.compile_doc(mod["source"]))
+            for t in spec.get("try_dropped", {}):
+                if t not in getattr(c, "dropped_seen", set()):
+                    bad(fn, "the handler `except %s` that the spec entry drops is not in the source" % t)
+            if spec.get("knot"):
+                defs.append(knot_def(spec))
         except Unsupported as e:
             raise Unsupported("%s %s: %s" % (mod["source"], spec["py"], e))
     out = ["/-", "GENERATED by tools/py2lean.py -- do not edit (overwritten on every run).",
@@ -2625,6 +3075,19 @@ def generate(name, repo):
             out.append("ignored     : %s: `%s`  (%s)" % (sp["py"], " ".join(x.strip() for x in t.split("\n")), why))
         for t, v in sp.get("static", {}).items():
             out.append("specialised : %s: `%s` is %s" % (sp["py"], t, v))
+        if sp.get("knot"):
+            out.append("recursion   : %s: the function calls itself; it is compiled in open-recursion form (`%s`, the self-call is "
+                       "its first parameter) and closed by `%s depth`: `depth` = the number of nested calls the interpreter "
+                       "still allows, 0 = RecursionError = none" % (sp["py"], sp["lean"], sp["knot"]))
+        if sp.get("int_is_int"):
+            out.append("specialised : %s: `int(e)` is applied to integers only (the spec entry types the matrix entries as "
+                       "integers), so it is the identity" % sp["py"])
+        if sp.get("numpy_ints"):
+            out.append("numpy       : %s: the bound numpy calls and what they are taken to mean are in the prelude below; a value of "
+                       "type NpInt is a numpy integer: `a // b` on it is numpy's floor division (b = 0 gives 0 and a warning, no "
+                       "exception) and `xs * a` repeats the list" % sp["py"])
+        for t, why in sp.get("try_dropped", {}).items():
+            out.append("dropped     : %s: the handler `except %s` (%s)" % (sp["py"], t, why))
         for t, why in sp.get("objects", {}).items():
             out.append("objects     : %s: values of `%s` stand for mutable objects; a loop that updates the members of a list "
                        "of them assumes the members are distinct objects (%s)" % (sp["py"], t, why))
@@ -2635,6 +3098,8 @@ def generate(name, repo):
                            % (sp["py"], k + 1, t["stream"], ", ".join(pat_vars(t["pattern"]))))
                 continue
             out.append("fuel        : %s: while loop %d runs on fuel `%s`; out of fuel = none" % (sp["py"], k + 1, t))
+    if any(sp.get("num") for sp in mod["functions"]):
+        out += [("numbers     : " if k == 0 else "              ") + t for k, t in enumerate(NUM_DOC)]
     out += ["-/"]
     out += ["import %s" % i for i in mod["imports"]]
     out += ["set_option linter.unusedVariables false", "", "namespace Artap.Gen.%s" % name]
@@ -2648,6 +3113,27 @@ def generate(name, repo):
     out.append("\n\n".join(defs))
     out += ["", "end Artap.Gen.%s" % name, ""]
     return "\n".join(out), blob
+
+
+def knot_def(spec):
+    """A function that calls itself is compiled in open-recursion form: the spec routes the self-call through the
+    parameter `rec` of `<lean>` (first parameter).  This definition closes the recursion: every call consumes one unit
+    of `depth`, the interpreter's recursion budget; `0` = RecursionError = none.  That the budget suffices for a given
+    argument is a hypothesis / theorem of the Tie file, never an assumption of the translator."""
+    k = spec["knot"]
+    args = spec["params"][1:]
+    names = [a for a, _ in args]
+    tys = " → ".join(tshow(t, False) for _, t in args)
+    res = tshow(("Option", spec["result"][1] if spec.get("result") else spec["ret"]), False)
+    if not spec.get("raises"):
+        raise Unsupported("%s: a recursive function must be compiled with raises=True (RecursionError)" % spec["py"])
+    return ("/-- `%s` with the recursion closed: `depth` is the number of nested calls the interpreter still allows\n"
+            "(`sys.getrecursionlimit()` minus the current depth); running out is the RecursionError (`none`) -/\n"
+            "def %s %s : Nat → %s → %s\n"
+            "  | 0%s => none\n"
+            "  | depth + 1%s => %s (%s depth) %s"
+            % (spec["py"], k, spec.get("header", ""), tys, res, "".join(", _" for _ in names),
+               "".join(", " + a for a in names), spec["lean"], k, " ".join(names)))
 
 
 def compile_doc(self, source):
